@@ -745,16 +745,67 @@ def rule_auxbox(ctx):
     else:
         ctx.bad(rid, "eof|exit-without-finalize", "AuxBoxList::eof can return without finalize(): a sized auxiliary box that ends exactly at the end of "
                 "the input (AuxBoxEnd is emitted lazily) is never delivered", fn=eof, path=p)
-    # finalize pushes the finished box
+    # finalize stores the finished box without disturbing the boxes already stored
+    from ..mirutil import local_uses, strip_generics
     fdefs = Defs(fin)
-    pushes = [b for b, tt in fin.calls() if callee(tt) and callee(tt)["fn"] == "alloc::vec::Vec::<T, A>::push"]
+    store_field = None
+    adt = ox.adts.get(AUX)
+    appends, lossy, other = [], [], []
+    uses = local_uses(fin)
+    for b, tt in fin.calls():
+        c = callee(tt)
+        if not c or not tt[2]:
+            continue
+        a0 = op_local(tt[2][0])
+        ap = access_path(fin, fdefs, a0) if a0 is not None else None
+        if not (ap and ap[1] and 1 <= ap[0] <= fin.argc and len(ap[1]) == 1):
+            continue
+        fld = ap[1][0]
+        m = strip_generics(c["fn"]).split("::")[-1]
+        coll = strip_generics(c["fn"])
+        if not any(x in coll for x in ("::vec::Vec", "VecDeque", "HashMap", "BTreeMap", "LinkedList", "SmallVec")):
+            continue
+        if m in ("push", "push_back", "extend", "extend_from_slice", "append"):
+            appends.append((b, fld))
+        elif m == "insert" and ("HashMap" in coll or "BTreeMap" in coll):
+            ret = tt[3][0] if tt[3] else None
+            (other if ret is not None and uses.get(ret, 0) > 0 else lossy).append((b, fld))
+        elif m in ("clear", "truncate", "pop", "pop_back", "pop_front", "remove", "swap_remove", "retain", "drain", "insert", "push_front"):
+            lossy.append((b, fld))
     inner = [b for b, tt in fin.calls() if callee(tt) and callee(tt)["fn"].endswith("AuxBoxReader::finalize")]
     jb = [b for b, tt in fin.calls() if callee(tt) and callee(tt)["fn"].endswith("Jbrd::finalize")]
-    if pushes and inner and jb and all(any(p2 in fin.reachable(i) for p2 in pushes) for i in inner):
-        ctx.ok(rid, "finalize|delivers", "current_box.finalize() then boxes.push(..); jbrd.finalize() for jbrd", nontrivial=True, fn=fin)
+    if lossy:
+        ctx.bad(rid, "finalize|box-replaced", "AuxBoxList::finalize stores the finished box in `%s` with an operation that can replace or remove a box "
+                "stored earlier (keyed insert with the previous value dropped, or a removal): a file with two boxes of one type delivers only "
+                "one of them" % lossy[0][1], fn=fin, pos=fin.term_pos(lossy[0][0]))
+    elif appends and inner and jb and all(any(p2 in fin.reachable(i) for p2, _ in appends) for i in inner):
+        ctx.ok(rid, "finalize|delivers", "current_box.finalize() then the finished box is appended to `%s`; jbrd.finalize() for jbrd" % appends[0][1],
+               nontrivial=True, fn=fin)
     else:
-        ctx.bad(rid, "finalize|box-not-delivered", "AuxBoxList::finalize no longer finalises and pushes the finished box (push %d, reader finalize %d, jbrd finalize %d)"
-                % (len(pushes), len(inner), len(jb)), fn=fin)
+        ctx.bad(rid, "finalize|box-not-delivered", "AuxBoxList::finalize no longer finalises and appends the finished box (append %d, reader finalize %d, jbrd finalize %d)"
+                % (len(appends), len(inner), len(jb)), fn=fin)
+    # the accessors hand out the first box of a type: no reverse search over the stored boxes
+    fo = ox.fn(AUX + "::first_of_type")
+    if fo is None:
+        ctx.anchor_missing(rid, AUX + "::first_of_type")
+    else:
+        ctx.seen(fo)
+        fam = [g for g in ox.fn_list if g.path == fo.path or g.path.startswith(fo.path + "::{closure")]
+        rev = []
+        for g in fam:
+            for b, tt in g.calls():
+                c = callee(tt)
+                nm = strip_generics(c.get("res") or c["fn"]) if c else ""
+                last = nm.split("::")[-1]
+                if last in ("rev", "rfind", "rposition", "next_back", "last", "nth_back", "rfold", "max_by_key", "min_by_key", "max_by", "min_by") \
+                        and ("iter" in nm.lower() or "slice" in nm):
+                    rev.append((g, b, last))
+        if rev:
+            g, b, last = rev[0]
+            ctx.bad(rid, "first_of_type|not-first", "AuxBoxList::first_of_type searches the stored boxes with `%s`: with several boxes of one type "
+                    "first_exif()/first_xml() no longer return the first one" % last, fn=g, pos=g.term_pos(b))
+        else:
+            ctx.ok(rid, "first_of_type|forward", "forward search over the stored boxes", fn=fo)
     # callers of eof
     callers = [f.path for f in ox.fn_list for _, tt in f.calls() if callee(tt) and callee(tt)["fn"] == AUX + "::eof"]
     if callers:
